@@ -81,7 +81,8 @@ func c03Specs(tier string, seed int) []c03Spec {
 		}
 	}
 	out = append(out, c03Spec{Kind: "seq", Batch: []string{"C", "C", "Ca"}}, c03Spec{Kind: "seq", Batch: []string{"Ap", "A", "Ap"}}, c03Spec{Kind: "seq", Batch: []string{"C", "Ca", "C"}},
-		c03Spec{Kind: "seq", Batch: []string{"Cw", "Cw2"}}, c03Spec{Kind: "seq", Batch: []string{"Cw", "C", "Cw2"}}, c03Spec{Kind: "seq", Batch: []string{"Cw", "Cw2", "Cw"}})
+		c03Spec{Kind: "seq", Batch: []string{"Cw", "Cw2"}}, c03Spec{Kind: "seq", Batch: []string{"Cw", "C", "Cw2"}}, c03Spec{Kind: "seq", Batch: []string{"Cw", "Cw2", "Cw"}},
+		c03Spec{Kind: "seq", Batch: []string{"C", "Cu"}}, c03Spec{Kind: "seq", Batch: []string{"Cu", "C"}}, c03Spec{Kind: "seq", Batch: []string{"Cu", "A", "C"}})
 	out = append(out, c03Spec{Kind: "e3", Batch: []string{"Cw", "Cw2"}, Conc: 2, Bound: -1, Days: 2})
 	if tier == "thorough" {
 		out = append(out, c03Spec{Kind: "e3", Batch: []string{"Cw", "C", "Cw2"}, Conc: 2, Bound: bound, Days: 3})
